@@ -1,4 +1,4 @@
-\* C12 -- thorough tier: PdiffIndex, every one of the 2^14 subsets x 3 uniform shapes, all invariants (closed); every subset is printed with one shape; props/c12.py sets EmitOff
+\* C12 -- thorough tier: PdiffIndex, every one of the 2^14 subsets x 2 uniform shapes, all invariants (closed); every subset is printed with one shape; props/c12.py sets EmitOff
 CONSTANTS
   Tables <- DocTables
   Modes <- ModesThoroughP
